@@ -307,6 +307,41 @@ def run_env(cfg, sid, transport, ka, latency, reject, seed):
     return n, vio
 
 
+def job_two_objects(j):
+    """Two inverter objects (own inverters) write at the same time, every interleaving of their answers up to two deviations
+    from first-come order (C20's harness): each inverter receives exactly the write requests its object sends when it is
+    alone - one write per write_setting()."""
+    from . import c20
+    from ..explore import explore
+    kinds, ops, transport = j
+    seqs = ((ops[0],), (ops[1],))
+    solos = [c20.run_pair(kinds, seqs, None, solo=i, transport=transport)[0] for i in (0, 1)]
+    vio = {}
+    n = [0]
+
+    def writes(reqs, tcp):
+        # (hex strings; Modbus/TCP without the transaction id: protocol id, length, unit, function - RTU: unit, function)
+        return sorted(r for r in reqs if (r[10:12] if tcp else r[2:4]) in ('06', '10'))
+
+    def on_exec(ctx, res):
+        obs, hang = res
+        n[0] += 1
+        if hang:
+            return
+        for i in (0, 1):
+            a, s = obs[i]['requests'], solos[i][i]['requests']
+            tcp = transport == 'tcp' or kinds[i].endswith('tcp')
+            if writes(a, tcp) != writes(s, tcp):
+                vio.setdefault(f'exactly-one-write/two-objects-at-once/{transport}', []).append(
+                    (list(ctx.choices), f'object {i} ({kinds[i]}) {ops[i]}: write requests on the wire {len(writes(a, tcp))}, alone {len(writes(s, tcp))}'))
+    explore(lambda ctx: c20.run_pair(kinds, seqs, ctx, transport=transport), deviations=2, depth=40, on_exec=on_exec)
+    out = []
+    for key, lst in vio.items():
+        out.append(dict(key=key, clause='exactly-one-write', n=len(lst), replay=dict(part='two-objects', kinds=list(kinds), ops=list(ops), transport=transport),
+                        detail=dict(cause=lst[0][1], interleaving=lst[0][0])))
+    return n[0], out
+
+
 def job_spike(j):
     """One request of write_setting() - or of the read-back that follows - is answered later than one timeout (a latency
     spike; the retransmission is answered at once, the late answer arrives while later requests are under way), for every
@@ -663,6 +698,11 @@ def run(tier, seed, rep):
                     if transport == 'udp' or tier == 'thorough':
                         for code in (3, 4, 6):
                             ejobs.append((cfg, sid, transport, ka, 0.001, code, seed))
+    ntwo = 0
+    for n, res in pmap(job_two_objects, [(kinds, (a, b), tr) for tr in ('tcp', 'udp') for kinds in (('ET+r1', 'ET+r1'), ('ET+r1', 'ET745+r1'), ('DT+r1', 'ET'))
+                                         for a in ('write_scalar', 'write_eco') for b in ('write_scalar', 'set_eco_charge', 'read_runtime_data')]):
+        ntwo += n
+        rep.add_many(res)
     nsp = 0
     spjobs = [(c, sid, tr, ka, seed) for c in settings_configs() if c['family'] != 'ES'
               for sid in ('grid_export_limit', 'battery_soc_protection', 'eco_mode_2_switch', 'eco_mode_2') for tr in ('tcp',) for ka in (False, True)]
@@ -704,7 +744,7 @@ def run(tier, seed, rep):
         total += n
         ne += e
         rep.add_many(res)
-    cov = dict(writes_with_a_latency_spike=nsp, writes_the_inverter_stored_differently=ncl, overlapping_write_pairs=now_, writes_after_a_read_that_lost_its_tail=nlt, writes_with_a_neighbour_object=nnb, environment_runs=nenv, api_session_histories=_api['histories'], api_session_states=_api['states'],
+    cov = dict(two_object_interleavings=ntwo, writes_with_a_latency_spike=nsp, writes_the_inverter_stored_differently=ncl, overlapping_write_pairs=now_, writes_after_a_read_that_lost_its_tail=nlt, writes_with_a_neighbour_object=nnb, environment_runs=nenv, api_session_histories=_api['histories'], api_session_states=_api['states'],
                states=max(ne, 1), transitions=max(total, 1), executions=total, traces_validated_against_impl=total,
                settings_jobs=len(jobs), distinct_encodings_written=ne, exhaustive=(tier == 'thorough'),
                bound='every setting of ET (eco v1 / v2 / 745 variants), DT (single / three phase) and the register-addressed ES '
@@ -728,6 +768,9 @@ def replay(r):
         out = api_sessions.replay(r)
         out['violations'] = [m for m in out['violations'] if m[0] == 'C17']
         return out
+    if r.get('part') == 'two-objects':
+        n, res = job_two_objects((tuple(r['kinds']), tuple(r['ops']), r['transport']))
+        return dict(interleavings=n, violations=[(v['key'], v['detail']['cause']) for v in res])
     cfg = r['cfg']
     cfg['refused'] = tuple(cfg['refused'])
     if 'firmware' in cfg and isinstance(cfg['firmware'], dict):
